@@ -46,6 +46,8 @@ package paillier
 //@   modifies nothing
 //@   ensures result ==> each(cts, c, c != nil)
 //@   ensures[C12] result ==> each(cts, c, natval(c.c) < natval(pk.nSquared.Modulus) && coprime(natval(c.c), natval(pk.nSquared.Modulus)))
+// ... and exactly then: present ciphertexts below N^2 and coprime to it are accepted
+//@   ensures each(cts, c, c != nil && natval(c.c) < natval(pk.nSquared.Modulus) && coprime(natval(c.c), natval(pk.nSquared.Modulus))) ==> result
 //@   loop 1: invariant[C12] each(cts[:rangeindex+1], c, natval(c.c) < natval(pk.nSquared.Modulus) && coprime(natval(c.c), natval(pk.nSquared.Modulus)))
 //@   loop 1: invariant each(cts[:rangeindex+1], c, c != nil)
 
@@ -164,6 +166,7 @@ package paillier
 
 // Local key generation (prime sampling in the worker pool; not verified -- no network input reaches it): assumed to
 // return well-formed keys and to touch nothing the caller holds.
+//@ pred ctvalid(pk *PublicKey, ct *Ciphertext) := ct != nil && natval(ct.c) < natval(pk.nSquared.Modulus) && coprime(natval(ct.c), natval(pk.nSquared.Modulus))
 //@ pred skwf(sk *SecretKey) := sk != nil && sk.PublicKey != nil && pkok(sk.PublicKey) && pkvals(sk.PublicKey) && pkbig(sk.PublicKey) && sk.p != nil && sk.q != nil && sk.phi != nil && sk.phiInv != nil
 //@ func NewSecretKey
 //@   modifies nothing
@@ -173,3 +176,21 @@ package paillier
 //@   modifies nothing
 //@   allocates
 //@   ensures result0 != nil && pedersen.pedok(result0) && result1 != nil
+
+// Decryption (C05): an absent or invalid ciphertext is refused with an error; a valid one decrypts without a panic.
+//@ func (*SecretKey).Dec
+//@   nopanic[C05]
+//@   requires skwf(sk)
+//@   modifies nothing
+//@   allocates
+//@   ensures result1 == nil ==> (result0 != nil && fresh(result0) && ct != nil)
+//@   ensures result1 != nil ==> result0 == nil
+// decryption fails exactly on ciphertexts that do not validate under the key
+//@   ensures (result1 == nil) == ctvalid(sk.PublicKey, ct)
+//@ func (*SecretKey).DecWithRandomness
+//@   nopanic[C05]
+//@   requires skwf(sk)
+//@   modifies nothing
+//@   allocates
+//@   ensures result2 == nil ==> (result0 != nil && result1 != nil && ct != nil)
+//@   ensures (result2 == nil) == ctvalid(sk.PublicKey, ct)
